@@ -35,7 +35,7 @@ def run(ctx):
     ctx.evaluations += len(bl)
     # ---------------- R1 the primary is never banned
     r1 = ctx.rule("C07-R1", "the ban list is inserted into only by ConnectionPool::ban, and never for an address whose role is Primary", floor=3)
-    ins = [c for c in bl if c.name.endswith("::insert")]
+    ins = [c for c in bl if c.name.endswith("::insert") or c.name.endswith("::entry")]
     r1.check(bool(ins) and {c.body.name for c in ins} == {BAN}, "insert-sites", "ban-list inserts happen only in ConnectionPool::ban", "ban-list insert sites: %s" % sorted({c.body.name for c in ins}))
     bn = ctx.body(BAN, r1)
     if bn and ins:
@@ -57,6 +57,15 @@ def run(ctx):
             c = [c for c in ins if c.body is bn][0]
             kp = {o.what for o in origins(bn, c.args[1], taint=True) if o.kind == "param"}
             r1.check(2 in kp, "insert-key", "the banned key is the address passed to ban()", "ban() inserts a different address than the one it was given")
+    # a (re-)ban takes effect from now: the entry is overwritten with the current time. Expiry is lazy (an entry is only removed when a
+    # checkout reaches that candidate), so the list can hold an expired entry nobody has looked at - keeping it would un-ban a replica that has just failed
+    if bn:
+        plain = [c for c in bl if c.body is bn and c.name.endswith("::insert")]
+        now_ok = any(any(o.kind == "call" and re.search(r"(Utc|Local)::now$|naive_utc$|Instant::now$|SystemTime::now$", o.call.name) for o in origins(bn, c.args[2] if len(c.args) > 2 else c.args[-1], taint=True)) for c in plain)
+        keep = [c for c in bn.calls("re:Entry.*::(or_insert|or_insert_with|or_default)$", "re:HashMap::.*(try_insert|contains_key)$")]
+        r1.check(bool(plain) and now_ok and not keep, "ban-refreshes-entry", "ban() overwrites the entry with the current time",
+                 "ban() keeps an existing entry (%s) instead of overwriting it with the current time: a stale, already expired entry survives a new failure, the next checkout that reaches the replica sees the old timestamp, "
+                 "un-bans it and hands it to clients although it has just failed" % (sorted({c.name.split("::")[-1] for c in keep}) or "no plain insert"), (keep or plain or [None])[0].where() if (keep or plain) else "")
     # ---------------- R2 failures ban and fall through to the next candidate
     r2 = ctx.rule("C07-R2", "a failed checkout or health check bans the address and moves on to the next candidate; errors while talking to a server ban it (and a timed-out server is also marked bad)", floor=6)
     g = ctx.body(GETC, r2)
